@@ -137,6 +137,18 @@ class Resize:
         # Split possibly multi-channel image in single channels
         img_channels: tuple[np.ndarray] = cv2.split(multi_channel_img_array)
 
+        # Area interpolation derives its averaging windows from the factors, if provided,
+        # and ignores trailing rows/columns if factor times extent is no integer. Since
+        # the physical extent of the image is kept, provide the target size explicitly,
+        # such that the windows cover the entire image.
+        dsize, fx, fy = self.dsize, self.fx, self.fy
+        if dsize is None and self.interpolation == cv2.INTER_AREA:
+            dsize = (
+                max(1, int(round(fx * original_shape[1]))),
+                max(1, int(round(fy * original_shape[0]))),
+            )
+            fx, fy = None, None
+
         # Apply resizing to each channel separately
         resized_channels = []
         for channel in img_channels:
@@ -144,18 +156,18 @@ class Resize:
                 resized_channels.append(
                     cv2.resize(
                         channel,
-                        dsize=self.dsize,
-                        fx=self.fx,
-                        fy=self.fy,
+                        dsize=dsize,
+                        fx=fx,
+                        fy=fy,
                     )
                 )
             else:
                 resized_channels.append(
                     cv2.resize(
                         channel,
-                        dsize=self.dsize,
-                        fx=self.fx,
-                        fy=self.fy,
+                        dsize=dsize,
+                        fx=fx,
+                        fy=fy,
                         interpolation=self.interpolation,
                     )
                 )
